@@ -16,6 +16,7 @@ import (
 type movingAllocator struct {
 	t        *tape.Tape
 	failNext bool
+	frees    int
 	regions  [][]byte
 }
 
@@ -59,4 +60,11 @@ func (m *movingMemory) Reallocate(size uint64) []byte {
 	return region[:size:size]
 }
 
-func (m *movingMemory) Free() {}
+// Free makes the current region inaccessible (it stays mapped until the run
+// ends): any instance that still uses the memory after a Free faults at once.
+func (m *movingMemory) Free() {
+	if m.cur != nil {
+		syscall.Mprotect(m.cur, syscall.PROT_NONE)
+		m.a.frees++
+	}
+}
